@@ -477,9 +477,17 @@ impl FetchState {
             .collect::<BTreeSet<_>>();
         let mut failed_delegates = BTreeSet::new();
 
+        // N.b. remotes for which special refs were fetched, but that have no
+        // `rad/sigrefs` at all, must be checked too: they are pruned below.
+        let fetched = signed_refs
+            .keys()
+            .chain(self.tips.keys())
+            .copied()
+            .collect::<BTreeSet<_>>();
+
         // TODO(finto): this might read better if it got its own
         // private function.
-        for remote in signed_refs.keys() {
+        for remote in &fetched {
             if handle.is_blocked(remote) {
                 log::trace!(target: "fetch", "Skipping blocked remote {remote}");
                 continue;
